@@ -1,122 +1,332 @@
 package main
 
 import (
-	"context"
+	"encoding/json"
 	"fmt"
-	"io"
+	"math/rand"
 	"os"
-	"path/filepath"
+	"runtime"
+	"sort"
 	"strings"
 	"sync"
-
-	task "github.com/go-task/task/v3"
+	"time"
 )
+
+// Domain `race` (property C18): generated Taskfile workloads in which several activations
+// that touch the same shared structure run concurrently, evaluated under the Go race
+// detector.  The supervisor (this process) only generates workloads and collects verdicts;
+// every evaluation happens in a child process:
+//
+//   - `harness race-worker` (this binary, built with -race -tags verif): runs the workload
+//     in-process through task.Executor with seeded schedule jitter (verifhook.Reset);
+//   - $VERIF_TASK_BIN_RACE (the real CLI built with -race and WITHOUT the verif tag, whose
+//     hook mutex adds happens-before edges that can hide a race).
+//
+// race.go        supervisor: pool, verdicts, replay
+// race_worker.go the two evaluators
+// race_gen.go    the workload generator (features, arrangements, options)
+// race_corpus.go the six fixed shapes of the first version of this domain (corpus/C18/race.jsonl)
 
 func init() {
 	domains["race"] = domain{runRace,
-		"concurrent workloads run in-process under the Go race detector (the harness is built with -race for C18): parallel deps compiling one task " +
-			"with a matrix ref, for-loops over deps, prefixed and grouped output of concurrent commands, dynamic variables, run: once / when_changed " +
-			"shared tasks, included Taskfiles, --parallel targets, defers; a detected race aborts the process with exit code 66 and the report is the " +
-			"replay. non-trivial = the workload ran at least two activations concurrently; distinct by workload shape"}
+		"seeded generator of concurrent workloads: each one composes 2-5 features (concurrently reached unknown / near-miss / over-long task names; " +
+			"fingerprinted tasks (checksum, timestamp, status, generates, shared not-yet-existing dir, same task with different vars); preconditions, requires, " +
+			"platforms; sh: variables at global / include / task level with cache hits and first-use concurrency; dotenv and env with sh values; wildcard tasks " +
+			"and aliases; label / prefix templates and interleaved / prefixed / group output; deferred commands and deferred task calls; run: once / when_changed " +
+			"incl. reference cycles; nested / flattened / internal / aliased / optional / twice-included Taskfiles; for-loops over lists, sources, matrix refs in " +
+			"cmds and deps; --dry, --force, ignore_error, set/shopt, silent, interactive, verbose, call vars) into one Taskfile tree and calls the registered " +
+			"entry tasks concurrently (parallel deps, --parallel targets, parallel parents with nested calls, for-loops over deps), under GOMAXPROCS in " +
+			"{1,2,4,16}, a concurrency limit in {0,1,2,N} and schedule jitter in {0,50,300,2000} µs. Every workload is evaluated in a worker process under " +
+			"the race detector (in-process executor with -tags verif, and the real CLI built with -race without the tag); verdict ok / race / crash / timeout. " +
+			"non-trivial = at least two entry activations run concurrently; distinct by sorted feature set + arrangement + options"}
 }
 
-type raceCase struct {
-	Shape  string `json:"shape"`
-	Output string `json:"output"`
-	N      int    `json:"n"`
-	Cap    int    `json:"cap"`
-	Par    bool   `json:"parallel"`
+type raceCall struct {
+	Task string            `json:"task"`
+	Vars map[string]string `json:"vars,omitempty"`
 }
 
-func raceTaskfile(d raceCase) (root, sub string) {
-	var b strings.Builder
-	b.WriteString("version: '3'\n")
-	switch d.Output {
-	case "prefixed":
-		b.WriteString("output: prefixed\n")
-	case "group":
-		b.WriteString("output:\n  group:\n    begin: '::b {{.TASK}}'\n    end: '::e'\n")
-	}
-	b.WriteString("vars:\n  LIST: {map: {a: 1}}\n  ITEMS: [x, y, z]\n  DYN: {sh: 'echo dyn'}\nincludes:\n  inc:\n    taskfile: ./sub/Taskfile.yml\n    dir: ./sub\n    vars: {IV: iv}\ntasks:\n")
-	deps := func(name string, n int) string {
-		var s []string
-		for i := 0; i < n; i++ {
-			s = append(s, fmt.Sprintf("{task: %s, vars: {I: '%d'}}", name, i%2))
-		}
-		return "[" + strings.Join(s, ", ") + "]"
-	}
-	fmt.Fprintf(&b, "  top:\n    deps: %s\n    cmds: ['echo top']\n", deps(d.Shape, d.N))
-	b.WriteString("  matrix:\n    cmds:\n      - for:\n          matrix:\n            A: {ref: .ITEMS}\n            B: [1, 2]\n        cmd: 'echo {{.ITEM.A}}{{.ITEM.B}} {{.I}}'\n")
-	b.WriteString("  dyn:\n    vars:\n      D2: {sh: 'echo d2-{{.I}}'}\n      D3: {sh: 'echo same'}\n    cmds: ['echo {{.DYN}} {{.D2}} {{.D3}}', 'printf \"a\\nb\\n\"; printf c']\n")
-	b.WriteString("  shared:\n    run: once\n    cmds: ['echo shared']\n")
-	b.WriteString("  wc:\n    run: when_changed\n    cmds: ['echo wc {{.I}}']\n")
-	b.WriteString("  dedup:\n    deps: [shared, {task: wc, vars: {I: '{{.I}}'}}]\n    cmds: ['echo dedup {{.I}}', {defer: 'echo deferred {{.I}}'}, {task: shared}]\n")
-	b.WriteString("  fordeps:\n    deps:\n      - for: {var: ITEMS}\n        task: leaf\n        vars: {X: '{{.ITEM}}'}\n    cmds: ['echo fordeps']\n")
-	b.WriteString("  leaf:\n    cmds: ['echo leaf {{.X}}']\n")
-	b.WriteString("  incl:\n    deps: [{task: 'inc:it', vars: {I: '{{.I}}'}}, 'inc:it2']\n    cmds: ['echo incl']\n")
-	b.WriteString("  failing:\n    deps: [leaf, bad, dyn]\n    ignore_error: true\n    cmds: ['echo after']\n  bad:\n    cmds: ['exit 3']\n")
-	sub = "version: '3'\nvars:\n  SV: {sh: 'echo sv'}\ntasks:\n  it:\n    vars: {TV: {sh: 'echo tv'}}\n    cmds: ['echo it {{.SV}} {{.IV}} {{.TV}} {{.I}}']\n  it2:\n    cmds: ['echo it2 {{.SV}}']\n"
-	return b.String(), sub
+type raceOpts struct {
+	Parallel       bool   `json:"parallel,omitempty"`
+	Concurrency    int    `json:"concurrency,omitempty"`
+	Dry            bool   `json:"dry,omitempty"`
+	Force          bool   `json:"force,omitempty"`     // in-process: Executor.Force (gentle force); CLI: --force
+	ForceAll       bool   `json:"force_all,omitempty"` // in-process: Executor.ForceAll; CLI: --force
+	Silent         bool   `json:"silent,omitempty"`
+	Verbose        bool   `json:"verbose,omitempty"`
+	Output         string `json:"output,omitempty"` // output style given as an option (flag); the Taskfile may set its own
+	GroupBegin     string `json:"group_begin,omitempty"`
+	GroupEnd       string `json:"group_end,omitempty"`
+	GroupErrorOnly bool   `json:"group_error_only,omitempty"`
+	SplitStderr    bool   `json:"split_stderr,omitempty"` // in-process: stdout and stderr are two different writers
 }
 
-var raceNo int
-var devNull, _ = os.Open(os.DevNull) // a real file, as os.Stdin is (a strings.Reader shared by concurrent commands would race in the harness itself)
+// raceWorkload is everything needed to evaluate one workload alone.
+type raceWorkload struct {
+	ID          string            `json:"id"`
+	Via         string            `json:"via"` // inproc | cli
+	Files       map[string]string `json:"files"`
+	Calls       []raceCall        `json:"calls"`
+	Opts        raceOpts          `json:"opts"`
+	Procs       int               `json:"gomaxprocs"`
+	JitterSeed  int64             `json:"jitter_seed"`
+	JitterUs    int64             `json:"jitter_us"`
+	Features    []string          `json:"features,omitempty"`
+	Arrangement string            `json:"arrangement,omitempty"`
+	RaceReport  string            `json:"race_report,omitempty"`
+	CrashReport string            `json:"crash_report,omitempty"`
+	Result      string            `json:"result,omitempty"` // error class of Run / exit code of the CLI (informative)
+	Attempts    int               `json:"attempts,omitempty"`
+}
 
-func evalRace(d raceCase) (string, string) {
-	raceNo++
-	base := os.Getenv("VERIF_SCRATCH")
-	if base == "" {
-		base = os.TempDir()
+type raceVerdict struct {
+	Verdict string // ok | race | crash | timeout
+	Report  string
+	Result  string
+	Millis  int64
+}
+
+// per-workload bound (a time-out is a verdict of its own); VERIF_RACE_BOUND_S overrides it for self-tests
+var raceBound = func() time.Duration {
+	var n int
+	if fmt.Sscan(os.Getenv("VERIF_RACE_BOUND_S"), &n); n > 0 {
+		return time.Duration(n) * time.Second
 	}
-	dir := filepath.Join(base, fmt.Sprintf("race%d-%d", os.Getpid(), raceNo))
-	os.MkdirAll(filepath.Join(dir, "sub"), 0o755)
-	defer os.RemoveAll(dir)
-	root, sub := raceTaskfile(d)
-	os.WriteFile(filepath.Join(dir, "Taskfile.yml"), []byte(root), 0o644)
-	os.WriteFile(filepath.Join(dir, "sub", "Taskfile.yml"), []byte(sub), 0o644)
+	return 30 * time.Second
+}()
+
+func raceWorkers() int {
+	n := runtime.NumCPU()
+	if n > 8 {
+		n = 8
+	}
+	if n < 1 {
+		n = 1
+	}
+	return n
+}
+
+// racePool evaluates jobs with W evaluator slots; every slot owns one in-process worker
+// (restarted when it dies) and starts CLI processes as needed.  Results keep job order.
+// After `stopAfter` race verdicts no new job is started (stopAfter <= 0: never stop).
+func racePool(jobs []raceWorkload, stopAfter int) []*raceVerdict {
+	res := make([]*raceVerdict, len(jobs))
 	var mu sync.Mutex
-	sink := writerFunc(func(p []byte) (int, error) { mu.Lock(); defer mu.Unlock(); return len(p), nil })
-	e := task.NewExecutor(task.WithDir(dir), task.WithStdout(sink), task.WithStderr(sink), task.WithStdin(devNull),
-		task.WithConcurrency(d.Cap), task.WithParallel(d.Par), task.WithSilent(false),
-		task.WithTempDir(task.TempDir{Remote: filepath.Join(dir, ".task"), Fingerprint: filepath.Join(dir, ".task")}))
-	if err := e.Setup(); err != nil {
-		return "race.ok", "setup-error " + hx(err.Error())
+	next, races := 0, 0
+	var retry []int
+	take := func() int {
+		mu.Lock()
+		defer mu.Unlock()
+		if next >= len(jobs) || (stopAfter > 0 && races >= stopAfter) {
+			return -1
+		}
+		next++
+		return next - 1
 	}
-	calls := []*task.Call{{Task: "top"}}
-	if d.Par {
-		calls = append(calls, &task.Call{Task: d.Shape}, &task.Call{Task: "top"})
+	var wg sync.WaitGroup
+	w := raceWorkers()
+	if w > len(jobs) {
+		w = len(jobs)
 	}
-	_ = e.Run(context.Background(), calls...)
-	return "race.ok", "ok"
+	for k := 0; k < w; k++ {
+		wg.Add(1)
+		go func() {
+			defer wg.Done()
+			slot := &raceSlot{}
+			defer slot.stop()
+			for {
+				i := take()
+				if i < 0 {
+					return
+				}
+				v := slot.eval(jobs[i], raceBound)
+				mu.Lock()
+				if v.Verdict == "timeout" {
+					retry = append(retry, i)
+				} else {
+					res[i] = v
+					if v.Verdict == "race" {
+						races++
+					}
+				}
+				mu.Unlock()
+			}
+		}()
+	}
+	wg.Wait()
+	// a timed-out workload is run once more, alone, with twice the bound (the machine may be overloaded)
+	sort.Ints(retry)
+	slot := &raceSlot{}
+	confirmed := 0
+	for _, i := range retry {
+		if stopAfter > 0 && confirmed >= stopAfter {
+			break // enough evidence of a hang; the rest stays unevaluated
+		}
+		res[i] = slot.eval(jobs[i], 2*raceBound)
+		if res[i].Verdict == "timeout" {
+			confirmed++
+		}
+	}
+	slot.stop()
+	return res
 }
 
-type writerFunc func(p []byte) (int, error)
-
-func (f writerFunc) Write(p []byte) (int, error) { return f(p) }
-
-var _ io.Writer = writerFunc(nil)
-
-func runRace(c *Ctx) {
-	if c.Replay(func(raw []byte) (string, string) {
-		var d raceCase
-		mustJSON(raw, &d)
-		return evalRace(d)
-	}) {
-		return
+func raceDesc(wl raceWorkload, v *raceVerdict) raceWorkload {
+	wl.RaceReport, wl.CrashReport = "", ""
+	switch v.Verdict {
+	case "race":
+		wl.RaceReport = v.Report
+	case "crash", "timeout":
+		wl.CrashReport = v.Report
 	}
-	shapes := []string{"matrix", "dyn", "dedup", "fordeps", "incl", "failing"}
-	outs := []string{"", "prefixed", "group"}
-	reps := c.Pick(1, 6)
-	for r := 0; r < reps; r++ {
-		for _, s := range shapes {
-			for _, o := range outs {
-				d := raceCase{Shape: s, Output: o, N: 3 + c.Rng.Intn(4), Cap: []int{0, 2, 0}[c.Rng.Intn(3)], Par: c.Rng.Intn(3) == 0}
-				cl, il := evalRace(d)
-				c.Hit("shape:" + s)
-				c.Hit("output:" + o)
-				c.Distinct(fmt.Sprintf("%s|%s|%d|%d|%v", s, o, d.N, d.Cap, d.Par))
-				c.Emit(cl, il, d)
+	wl.Result = v.Result
+	return wl
+}
+
+func raceReplay(c *Ctx) bool {
+	p, _ := c.Extra["replay"].(string)
+	if p == "" {
+		return false
+	}
+	data, err := os.ReadFile(p)
+	if err != nil {
+		panic(err)
+	}
+	var raws []json.RawMessage
+	var one struct {
+		Case json.RawMessage `json:"case"`
+	}
+	if json.Unmarshal(data, &one) == nil && len(one.Case) > 0 {
+		raws = append(raws, one.Case)
+	} else {
+		for _, ln := range strings.Split(string(data), "\n") {
+			if ln = strings.TrimSpace(ln); ln != "" {
+				raws = append(raws, json.RawMessage(ln))
 			}
 		}
 	}
+	// a single case (a replay file) is evaluated up to 5 times, the cases of a corpus file twice each;
+	// the verdict of a case is its first non-ok one
+	reps := 5
+	if len(raws) > 1 {
+		reps = 2
+	}
+	var jobs []raceWorkload
+	for _, raw := range raws {
+		var wl raceWorkload
+		mustJSON(raw, &wl)
+		if wl.Via == "cli" && os.Getenv("VERIF_TASK_BIN_RACE") == "" {
+			wl.Via = "inproc"
+		}
+		for k := 0; k < reps; k++ {
+			j := wl
+			j.JitterSeed = wl.JitterSeed + int64(k) // the first attempt is the recorded one
+			j.Attempts = k + 1
+			jobs = append(jobs, j)
+		}
+	}
+	stop := 0
+	if len(raws) == 1 {
+		stop = 1 // one non-ok verdict decides a single case
+	}
+	res := racePool(jobs, stop)
+	for i := range raws {
+		var best *raceVerdict
+		var job raceWorkload
+		for k := 0; k < reps; k++ {
+			v := res[i*reps+k]
+			if v == nil {
+				continue
+			}
+			if best == nil || v.Verdict != "ok" {
+				best, job = v, jobs[i*reps+k]
+			}
+			if v.Verdict != "ok" {
+				break
+			}
+		}
+		if best == nil {
+			panic("race replay: no attempt was evaluated")
+		}
+		c.Hit("via:" + job.Via)
+		c.Hit("verdict:" + best.Verdict)
+		c.Distinct(job.ID + "|" + job.Via)
+		c.Emit("race.ok", best.Verdict, raceDesc(job, best))
+	}
+	return true
+}
+
+func runRace(c *Ctx) {
+	if raceReplay(c) {
+		return
+	}
+	n := c.Pick(200, 1300)
+	if s := os.Getenv("VERIF_RACE_N"); s != "" {
+		fmt.Sscan(s, &n)
+	}
+	cliBin := os.Getenv("VERIF_TASK_BIN_RACE")
+	only := os.Getenv("VERIF_RACE_VIA") // development aid: restrict to one evaluator (inproc | cli)
+	var jobs []raceWorkload
+	for i := 0; i < n; i++ {
+		wl := genRaceWorkload(rand.New(rand.NewSource(c.Rng.Int63())), fmt.Sprintf("s%d-%s-%d", c.Seed, c.Tier, i))
+		wl.Via = "inproc"
+		if only != "cli" || cliBin == "" {
+			jobs = append(jobs, wl)
+		}
+		if cliBin != "" && only != "inproc" {
+			w2 := wl
+			w2.Via = "cli"
+			jobs = append(jobs, w2)
+		}
+	}
+	t0 := time.Now()
+	res := racePool(jobs, 3)
+	var totalMs, maxMs int64
+	viaMs := map[string]int64{}
+	evaluated := 0
+	for i, v := range res {
+		if v == nil {
+			continue // not started: three race verdicts were enough
+		}
+		wl := jobs[i]
+		evaluated++
+		totalMs += v.Millis
+		viaMs[wl.Via] += v.Millis
+		if v.Millis > maxMs {
+			maxMs = v.Millis
+		}
+		for _, f := range wl.Features {
+			c.Hit("feat:" + f)
+		}
+		c.Hit("arr:" + wl.Arrangement)
+		c.Hit("via:" + wl.Via)
+		c.Hit("verdict:" + v.Verdict)
+		c.Hit(fmt.Sprintf("gomaxprocs:%d", wl.Procs))
+		c.Hit(fmt.Sprintf("jitter:%d", wl.JitterUs))
+		c.Hit("concurrency:" + raceCapClass(wl.Opts.Concurrency))
+		if v.Result != "" {
+			c.Hit("result:" + v.Result)
+		}
+		c.Distinct(raceKey(wl))
+		c.Emit("race.ok", v.Verdict, raceDesc(wl, v))
+	}
+	c.Extra["race_timing"] = map[string]any{"workloads": n, "evaluations": evaluated, "wall_s": time.Since(t0).Seconds(),
+		"sum_eval_ms": totalMs, "sum_eval_ms_by_via": viaMs, "max_eval_ms": maxMs, "workers": raceWorkers(), "cli": cliBin != ""}
+}
+
+func raceCapClass(n int) string {
+	switch {
+	case n <= 2:
+		return fmt.Sprint(n)
+	default:
+		return "N"
+	}
+}
+
+func raceKey(wl raceWorkload) string {
+	fs := append([]string(nil), wl.Features...)
+	sort.Strings(fs)
+	o := wl.Opts
+	return fmt.Sprintf("%s|%s|%s|p%v c%s d%v f%v%v s%v v%v o%s|g%d j%d", strings.Join(fs, ","), wl.Arrangement, wl.Via,
+		o.Parallel, raceCapClass(o.Concurrency), o.Dry, o.Force, o.ForceAll, o.Silent, o.Verbose, o.Output, wl.Procs, wl.JitterUs)
 }
